@@ -77,6 +77,7 @@ def ppCheck (d : List (Int × Model.PartProd.St × List Model.PartProd.Action)) 
       bp.resp.end, bp.verdict, bp.drop, bp.closing) and the question whether a syn reached the latest worker of
       its broker id or a newly created one are resolved by keeping every consistent attribution alive (`World`s)
       and rejecting only when none is left;
+    * (more than 64 consistent attributions: the scenario's broker workers are not checked any further)
     * the parameters of an input that are visible only in the reaction (wouldOverflow, the verdicts and the map
       iteration orders): the check of an input is deferred to the worker's next input (`settle`).
   Idempotent scenarios are not replayed (retryBatch hands sets to other workers' bridges). -/
@@ -244,7 +245,9 @@ def wstep (max : Nat) (wd : World) (kind : String) (id a b p : Int) : List (Exce
   | "ret.err" => observe wd id (.fail id p) true false
   | "ret.succ" => observe wd id (.succ id p) true false
   | "bp.handover" =>
-    orErr ((wd.ws.filter (fun w => w.broker == a)).map fun w =>
+    -- (workers with something in the buffer first: the order of the alternatives is the order of plausibility)
+    orErr (((wd.ws.filter (fun w => w.broker == a && !w.st.buffer.isEmpty)) ++
+            (wd.ws.filter (fun w => w.broker == a && w.st.buffer.isEmpty))).map fun w =>
       match settle max false w with
       | .error m => .error m
       | .ok w' =>
@@ -313,18 +316,25 @@ def firstError (l : List (Except String World)) : String :=
   | m :: _ => m
   | [] => "no consistent attribution"
 
-/-- all worlds, one event; at most 16 attributions are kept (most plausible first) -/
+def worldCap : Nat := 64
+
+/-- all worlds, one event.  `.ok []` = too many attributions are consistent: the broker workers of this scenario
+    are not checked any further (never a rejection). -/
 def bpCheck (max : Nat) (wds : List World) (kind : String) (id a b p : Int) : Except String (List World) :=
-  let r := wds.flatMap (fun wd => wstep max wd kind id a b p)
-  match successes r with
-  | [] => .error (firstError r)
-  | l => .ok (l.take 16)
+  if wds.isEmpty then .ok []
+  else
+    let r := wds.flatMap (fun wd => wstep max wd kind id a b p)
+    match successes r with
+    | [] => .error (firstError r)
+    | l => if l.length > worldCap then .ok [] else .ok l
 
 def bpEnd (max : Nat) (wds : List World) : Except String Unit :=
-  let r := wds.map (wend max)
-  match successes r with
-  | [] => .error (firstError r)
-  | _ => .ok ()
+  if wds.isEmpty then .ok ()
+  else
+    let r := wds.map (wend max)
+    match successes r with
+    | [] => .error (firstError r)
+    | _ => .ok ()
 
 end BPW
 
@@ -364,7 +374,7 @@ def toEv (kind : String) (id a : Int) : Option Ev :=
   | "close" => some .close
   | "pp.recv" | "pp.buf" | "pp.fwd" | "pp.fail" | "pp.abandon" | "bp.bounce" | "bp.add" | "bp.sent" | "bp.sent.end"
   | "bp.answered" | "bp.answered.end" | "bp.recv" | "bp.handover" | "bp.resp" | "bp.resp.end" | "bp.verdict"
-  | "bp.closing" | "bp.drop" => some .other
+  | "bp.closing" | "bp.drop" | "bp.sent.stamp" | "bp.answered.stamp" | "bp.resp.stamp" => some .other
   | _ => none
 
 def step (d : DS) (t : List String) : DS × String :=
